@@ -20,7 +20,7 @@ class Prop(BaseProp):
     RULE = ("abstract modules (1-8 top-level items, nesting <=3, every item independently documented, annotation "
             "comments at every gap, random command-name case) rendered to text and run through the real Documenter; "
             "expected entry forest from an independent reference model; in thorough tier also every ordered pair of "
-            "item kinds at top level and inside a function body. Distinct = structural shape of the module "
+            "item kinds at top level and inside a function body and every ordered triple at top level. Distinct = structural shape of the module "
             "(ids/literals erased); non-trivial = at least 2 expected entries")
     ASSUMPTIONS = ["member/test declarations are immediately followed by their implementing definition",
                    "implementing definitions carry no doccomment", "default settings (config_default.yaml)",
@@ -29,7 +29,7 @@ class Prop(BaseProp):
     HEADLINE = ["entries_expected", "entries_matched", "modules_with_comments", "documented_api_checked"]
 
     def n_cases(self, tier):
-        return 5000 if tier == "quick" else 60000 + 2 * len(KINDS14) ** 2 * 2
+        return 5000 if tier == "quick" else 60000 + 2 * len(KINDS14) ** 2 * 2 + len(KINDS14) ** 3
 
     def setup_worker(self):
         runner.cminx()
@@ -41,12 +41,18 @@ class Prop(BaseProp):
             b = Builder(rng, p_doc=0.5, max_depth=3)
             mod = b.module()
             return mod, b, "random"
-        # exhaustive ordered pairs of kinds, top-level / in a function body, two doc polarities
+        # exhaustive ordered pairs of kinds, top-level / in a function body, two doc polarities; then ordered triples
         j = idx - nrand
         n = len(KINDS14)
-        inbody, j = j % 2, j // 2
-        flip, j = j % 2, j // 2
-        k1, k2 = KINDS14[j // n % n], KINDS14[j % n]
+        triple = None
+        if j >= 4 * n * n:
+            t = j - 4 * n * n
+            triple = (KINDS14[t // (n * n) % n], KINDS14[t // n % n], KINDS14[t % n])
+            inbody, flip, k1, k2 = 0, rng.randrange(2), triple[0], triple[1]
+        else:
+            inbody, j = j % 2, j // 2
+            flip, j = j % 2, j // 2
+            k1, k2 = KINDS14[j // n % n], KINDS14[j % n]
         b = Builder(rng, p_doc=0.5, max_depth=2)
 
         def mk(k, doc):
@@ -67,6 +73,8 @@ class Prop(BaseProp):
             b.kinds = list(Builder(rng).kinds)
             return it
         pair = [mk(k1, bool(flip)), mk(k2, not flip)]
+        if triple:
+            pair.append(mk(triple[2], rng.random() < 0.5))
         pair = b._fix_dangling(pair, 0 if not inbody else 1)
         if inbody:
             from ..modgen import Item
@@ -77,6 +85,8 @@ class Prop(BaseProp):
         else:
             items = pair
         from ..modgen import Module
+        if triple:
+            return Module(items), b, "triple:" + ",".join(triple)
         return Module(items), b, f"pair:{k1},{k2},{'body' if inbody else 'top'}"
 
     def run_case(self, idx, rng):
